@@ -51,11 +51,15 @@ EmptyChain ==
 
 InitHub ==
     [cfg |-> "static", h |-> IF Family = "registry" THEN 1 ELSE 0, t |-> IF Family = "registry" THEN 1 ELSE 0, inb |-> (Family = "registry"),
-     bal |-> [a \in {"a1", "a2", "a3", "tmp", "mod"} |-> [d \in {"hub", "usd"} |-> IF a \in {"a1", "a2"} THEN 1000 ELSE 0]],
-     sup |-> [d \in {"hub", "usd"} |-> 2000],
+     \* (evm family: nothing is in circulation at genesis, every voucher comes from a deposit locked in the real contract)
+     bal |-> [a \in {"a1", "a2", "a3", "tmp", "mod"} |-> [d \in {"hub", "usd"} |-> IF a \in {"a1", "a2"} /\ Family # "evm" THEN 1000 ELSE 0]],
+     sup |-> [d \in {"hub", "usd"} |-> IF Family = "evm" THEN 0 ELSE 2000],
      stk |-> [v \in Vals |-> [b |-> TRUE, p |-> 1, j |-> FALSE, x |-> TRUE, tk |-> 1]], tot |-> 3,
      ch  |-> [c \in {"ethereum", "minter", "bsc", "hub"} |->
                 IF c = "minter" /\ WithKeysAndPrices
+                THEN [EmptyChain EXCEPT !.ve = [v1 |-> "e1", v2 |-> "e2", v3 |-> "e3"], !.ov = [o1 |-> "v1", o2 |-> "v2", o3 |-> "v3"],
+                                        !.eo = [e1 |-> "o1", e2 |-> "o2", e3 |-> "o3"]]
+                ELSE IF c = "ethereum" /\ Family = "evm"
                 THEN [EmptyChain EXCEPT !.ve = [v1 |-> "e1", v2 |-> "e2", v3 |-> "e3"], !.ov = [o1 |-> "v1", o2 |-> "v2", o3 |-> "v3"],
                                         !.eo = [e1 |-> "o1", e2 |-> "o2", e3 |-> "o3"]]
                 ELSE EmptyChain],
